@@ -1196,8 +1196,11 @@ def check_C02(tier, seed):
             s = forest_sprite(lv, flags, rng)
             out.append((s, gen.encode(s, None, rng)))
         # the complete (layer opacity, cel opacity) square of the opacity product (quick: a quarter of it, rotating with the seed)
-        for g in (range(64) if tier != "quick" else [(4 * k + seed) % 64 for k in range(16)]):
+        # the complete (layer opacity, cel opacity) square of the opacity product (both tiers: a rounding slip may hit two dozen pairs only)
+        for g in range(64):
             s = opacity_square_sprite(g)
+            out.append((s, gen.encode(s, None, rng)))
+        for s in big_canvas_sprites(rng):
             out.append((s, gen.encode(s, None, rng)))
         for g in range(16 if tier == "quick" else 96):
             s = covering_sprite(g, rng)
@@ -1269,7 +1272,8 @@ def check_C06(tier, seed):
                        "zlib storage, sparse palettes with alpha < 255, linked cels, tilemap cels) + corpus; model cel observations = implementation; "
                        "direct: every cel's image equals the stored pixels at the offset with alpha scaled by mul_un8(layer, cel) computed "
                        "independently in Python; emptiness/offset/tilemap-ness as encoded",
-                       ["C06_empty", "C06_linked", "C06_cel_pixels", "C06_cel_pixels_loaded"], max_frames=4, max_layers=6, extra_direct=large_uniform_cels)
+                       ["C06_empty", "C06_linked", "C06_cel_pixels", "C06_cel_pixels_loaded"], max_frames=4, max_layers=6, extra_direct=large_uniform_cels,
+                       extra_cases=lambda rng, tier: [(s, gen.encode(s, None, rng)) for s in opacity_grid_sprites() + big_canvas_sprites(rng)])
 
 
 # ==========================================================================
@@ -1784,6 +1788,47 @@ def forest_sprite(levels: List[int], flags: List[int], rng: random.Random, late:
     return {"width": W, "height": H, "depth": 32, "transparent": 0, "durations": [100, 100], "speed": 100, "palette_chunks": [],
             "palette": None, "sprite_ud": None, "ext_files": [], "tilesets": tilesets if any(l["ltype"] == 2 for l in layers) else [],
             "layers": layers, "cels": cels, "tags": [], "has_tags_chunk": False, "slices": []}
+
+
+def opacity_grid_sprites(depths=(32, 16, 8)) -> List[dict]:
+    """the complete (layer opacity, cel opacity) square again, for checks that look at the first 6 layers and 4 frames of a sprite only:
+    sprites of 6 layers x 4 frames on a 1 x 1 canvas, 24 pairs each (2731 sprites), in the three pixel formats in turn"""
+    out = []
+    pairs = [(lo, co) for lo in range(256) for co in range(256)]
+    for k in range(0, len(pairs), 24):
+        depth = depths[(k // 24) % len(depths)]
+        chunk = pairs[k:k + 24]
+        lops = sorted({lo for lo, _ in chunk})
+        # 24 consecutive pairs span at most two layer opacities: layers 0..5 take them in turn, frames 0..3 the cel opacities
+        layers, cels = [], {}
+        for li in range(6):
+            layers.append({"flags": 1, "ltype": 0, "level": 0, "blend": 0, "opacity": chunk[li * 4][0] if li * 4 < len(chunk) else 255, "name": "g%d" % li,
+                           "tileset": 0, "ud": None, "default_w": 0, "default_h": 0})
+        for idx, (lo, co) in enumerate(chunk):
+            li, f = idx // 4, idx % 4
+            px = (201, 77, 13, 255) if depth == 32 else ((180, 255) if depth == 16 else 1)
+            cels[(f, li)] = {"kind": "raw", "x": 0, "y": 0, "w": 1, "h": 1, "opacity": co, "pixels": [px], "ud": None}
+        pal = {0: (0, 0, 0, 0, None), 1: (9, 99, 199, 255, None)} if depth == 8 else None
+        out.append({"width": 1, "height": 1, "depth": depth, "transparent": 0, "durations": [100] * 4, "speed": 100,
+                    "palette_chunks": [("new", 0, [pal[0], pal[1]])] if pal else [], "palette": pal, "sprite_ud": None, "ext_files": [], "tilesets": [],
+                    "layers": layers, "cels": cels, "tags": [], "has_tags_chunk": False, "slices": []})
+    return out
+
+
+def big_canvas_sprites(rng: random.Random) -> List[dict]:
+    """canvases with a side of 32768 pixels and more (the other side 1 or 2): a cel at a non-negative offset near the origin and one
+    near the far end are both on the canvas"""
+    out = []
+    for (W, H) in ((40000, 1), (1, 32768), (65535, 1), (2, 33000)):
+        far = (min(32767, W - 3), 0) if W > H else (0, min(32767, H - 3))      # (cel offsets are 16-bit signed fields)
+        layers = [{"flags": 1, "ltype": 0, "level": 0, "blend": rng.choice([0, 0, 2]), "opacity": rng.choice([255, 200]), "name": "L%d" % i, "tileset": 0,
+                   "ud": None, "default_w": 0, "default_h": 0} for i in range(2)]
+        cels = {(0, 0): {"kind": "raw", "x": 0, "y": 0, "w": min(W, 2), "h": min(H, 2), "opacity": 255,
+                         "pixels": [(10 + i, 200, 30, 255) for i in range(min(W, 2) * min(H, 2))], "ud": None},
+                (0, 1): {"kind": "zlib", "x": far[0], "y": far[1], "w": 1, "h": 1, "opacity": rng.choice([255, 101]), "pixels": [(1, 2, 250, 255)], "ud": None}}
+        out.append({"width": W, "height": H, "depth": 32, "transparent": 0, "durations": [100], "speed": 100, "palette_chunks": [], "palette": None,
+                    "sprite_ud": None, "ext_files": [], "tilesets": [], "layers": layers, "cels": cels, "tags": [], "has_tags_chunk": False, "slices": []})
+    return out
 
 
 def opacity_square_sprite(g: int) -> dict:
